@@ -464,6 +464,7 @@ func exploreCfg(res *common.Result, cfg *Cfg, bound int, quiescentOnly bool, pru
 	ecfg.QuiescentOnly = quiescentOnly
 	ecfg.Prune = prune
 	ecfg.Deadline = common.Deadline()
+	ecfg.ShardI, ecfg.ShardN = common.SubShardOf()
 	if target == "C04" {
 		ecfg.Setup = func(s *vrt.Sched) {
 			s.OnQuiesc = func(parked []string) {
@@ -516,7 +517,11 @@ func exploreCfg(res *common.Result, cfg *Cfg, bound int, quiescentOnly bool, pru
 		}
 		return true
 	})
-	res.Configs++
+	si, sn := common.SubShardOf()
+	countCfg := sn == 0 || si == 0
+	if countCfg {
+		res.Configs++
+	}
 	res.Evaluations += st.Execs
 	res.Traces += st.Execs
 	res.States += st.States
@@ -524,7 +529,7 @@ func exploreCfg(res *common.Result, cfg *Cfg, bound int, quiescentOnly bool, pru
 	for k, n := range st.Outcomes {
 		res.Outcomes[k] += n
 	}
-	if len(distinct) >= 2 {
+	if len(distinct) >= 2 && countCfg {
 		res.Nontrivial++
 	}
 	res.Extra["distinct_observations"] += int64(len(distinct))
